@@ -66,6 +66,14 @@ type crashRunOut struct {
 	Steps  []stepResult
 }
 
+// Marks2 returns the number of physical writes of op step in the reference run.
+func (r *crashRunOut) Marks2(step int) int {
+	if step+1 < len(r.Marks) {
+		return r.Marks[step+1] - r.Marks[step]
+	}
+	return r.Writes - r.Marks[step]
+}
+
 type crashObsOut struct {
 	PreFails  []string `json:"pre_fails"`
 	PostFails []string `json:"post_fails"`
@@ -116,6 +124,12 @@ func childMain(args []string) {
 			pureStep(m, hist[i])
 		}
 		pre := append([]*types.Group{}, m.list...)
+		// every list the operation passes through is a legitimate state: the fork switch
+		// (rm2) is two complete removals, the list between them is consistent too
+		var mids [][]*types.Group
+		if hist[step] == opRm2 {
+			mids = append(mids, append([]*types.Group{}, m.list[:len(m.list)-1]...))
+		}
 		pureStep(m, hist[step])
 		post := m.list
 		o := crashObsOut{PreLen: len(pre), PostLen: len(post)}
@@ -124,6 +138,11 @@ func childMain(args []string) {
 		}
 		for _, f := range checkAgainst(post) {
 			o.PostFails = append(o.PostFails, fmt.Sprintf("%s: %s", clauseName[f.Clause], f.Msg))
+		}
+		for _, mid := range mids {
+			if len(checkAgainst(mid)) == 0 {
+				o.PostFails = nil // consistent intermediate list
+			}
 		}
 		b, _ := json.Marshal(o)
 		os.WriteFile(args[3], b, 0o644)
@@ -209,6 +228,13 @@ func crashPart(c *fw.Ctx, only *crashCase) {
 				fmt.Sscan(string(pb), &step)
 			}
 			within := p - ro.Marks[step] // k-th physical write of the interrupted operation
+			if hist[step] == opRm2 {
+				// two consecutive removals: name the write inside the removal it belongs to
+				per := (ro.Marks2(step) + 1) / 2
+				if per > 0 {
+					within = (within-1)%per + 1
+				}
+			}
 			where := fmt.Sprintf("%s:write%d", opClass(hist[step], true), within)
 			tr := "?"
 			if p-1 < len(ro.Trace) {
